@@ -133,8 +133,26 @@ def gen_restraint(r, k, T):
     B.append("}")
     it0 = first_step(r, [0, 0, 0, 5, 12])
     M["it0"] = it0
-    return {"fam": "restraint", "tags": tags, "sigtags": [m], "natoms": nv, "config": cfg + B, "it0": it0,
-            "pos": walk(r, T, nv), "model": M}
+    pos = walk(r, T, nv)
+    conf = cfg + B
+    if "periodic" not in tags and r.random() < 0.2:
+        # all lengths 2^27 (1.3e8) or 2^-27 (7.5e-9) times larger: widths, centres, walls, positions (energies unchanged)
+        S = 2.0 ** r.choice([-27, 27])
+        tags.append("scale=%g" % S)
+
+        def sc(line):
+            w = line.split()
+            if w and w[0] in ("width", "centers", "targetCenters", "lowerWalls", "upperWalls"):
+                return "  " + w[0] + " " + vec([float(x) * S for x in w[1:]])
+            return line
+        conf = [sc(l) for l in conf]
+        pos = [[z * S for z in p] for p in pos]
+        for v in M["vars"]:
+            v["w"] *= S
+        for key in ("centers", "target_centers", "lower", "upper"):
+            M[key] = [x * S for x in M[key]]
+    return {"fam": "restraint", "tags": tags, "sigtags": [m], "natoms": nv, "config": conf, "it0": it0,
+            "pos": pos, "model": M}
 
 
 # ------------------------------------------------------------------------------------------------ histogram
